@@ -198,7 +198,7 @@ var (
 )
 
 func noteRefused(text string, ref refsnbt.Result, err error) {
-	shape := treeSig(ref.Tree, 2)
+	shape := treeSig(ref.Tree, 1)
 	if f, ok := ref.Forms[ref.Tree]; ok {
 		shape = "lit:" + f
 	}
